@@ -120,6 +120,9 @@ func c31RunInner(in c31In) (V, Verdict) {
 		"consumed-packets-rebuilt-after-active-drained": true,
 		"stale-packet-accepted-after-buffer-drained":    true,
 		"frame-after-dropped-headless-run-skipped":      true,
+		"filled-head-advanced-past-filled-tail":         true,
+		"filled-window-wraps-ring-maxlate-above-21844":  true,
+		"frame-longer-than-maxlate-never-emitted":       true,
 	}
 	failKnown := func(sig, what string) {
 		if verdict.OK {
@@ -137,6 +140,10 @@ func c31RunInner(in c31In) (V, Verdict) {
 	seenG := map[int]int{} // g -> index in emitted
 	epoch, aepoch, pushes, firstG := 0, 0, 0, -1
 	drained, flushed := false, false // last op was a Pop returning nil; a Flush came after the last Push
+	// pastTail: after some operation filled was [tail+1, tail) with nothing buffered: purgeBuffers
+	// incremented filled.head past filled.tail.  modelFault: the model's diagnostic flag, predicted
+	// from the builder's state (c31EmptiedWindowBuild); it is part of the compared observation.
+	pastTail, modelFault := false, 0
 	obs := make(VL, 0, len(in.Ops))
 	durLim := int64(8388608) * 1000000000 / int64(in.Rate)
 
@@ -169,17 +176,35 @@ func c31RunInner(in c31In) (V, Verdict) {
 			sb.Push(p)
 			drained, flushed = false, false
 		case 1:
+			// is this Pop about to build a sample over an active window that the tail
+			// extension empties (active.tail = filled.tail == active.head)?
+			emptied := c31EmptiedWindowBuild(sb, live, dep)
+			if emptied && modelFault == 0 {
+				modelFault = 3
+			}
+			cause := ""
+			if emptied {
+				switch {
+				case pastTail:
+					cause = "filled-head-advanced-past-filled-tail"
+				case in.MaxLate > 21844:
+					cause = "filled-window-wraps-ring-maxlate-above-21844"
+				}
+			}
 			s := sb.Pop()
 			drained = s == nil
 			if s != nil {
 				sampleV = VL{c31SampleV(in, s, durLim)}
-				c31CheckSample(s, k, pushedByKey, &emitted, seenG, failNew, failKnown)
+				c31CheckSample(s, k, pushedByKey, &emitted, seenG, failNew, failKnown, cause)
 			}
 		case 2:
 			sb.Flush()
 			drained, flushed = false, true
 		}
 		st := sb.VerifState()
+		if st.FilledHead == st.FilledTail+1 && len(live) == 0 {
+			pastTail = true
+		}
 		for _, id := range releasedNow {
 			if released[id] > 1 {
 				failNew("packet-released-twice", fmt.Sprintf("op %d: pushed packet #%d handed to the release handler %d times", k, id, released[id]))
@@ -191,7 +216,7 @@ func c31RunInner(in c31In) (V, Verdict) {
 		}
 		obs = append(obs, VL{VInts(releasedNow), sampleV, VL{
 			VL{VZ(st.FilledHead), VZ(st.FilledTail)}, VL{VZ(st.ActiveHead), VZ(st.ActiveTail)},
-			VL{VZ(st.PreparedHead), VZ(st.PreparedTail)}, VZ(st.DroppedPackets), VZ(st.PaddingPackets), VZ(lastTS), VZ(0)}})
+			VL{VZ(st.PreparedHead), VZ(st.PreparedTail)}, VZ(st.DroppedPackets), VZ(st.PaddingPackets), VZ(lastTS), VZ(int64(modelFault))}})
 	}
 
 	// completeness: loss-free, reordered within the bound, every frame emitted after Flush
@@ -220,11 +245,28 @@ func c31RunInner(in c31In) (V, Verdict) {
 			}
 			return false
 		}
+		// largest displacement of a packet in the delivery (position among the pushes vs stream index)
+		maxDisp, nth := 0, 0
+		for _, op := range in.Ops {
+			if op.K == 0 {
+				if d := nth - op.G; d > maxDisp {
+					maxDisp = d
+				} else if -d > maxDisp {
+					maxDisp = -d
+				}
+				nth++
+			}
+		}
 		for j, fr := range in.Frames {
 			if got[fmt.Sprint(fr)] {
 				continue
 			}
 			switch {
+			case len(fr)+maxDisp > int(in.MaxLate):
+				// maxLate bounds the buffer: a frame that does not fit into it together with the
+				// reordering loses its first packet to the purge before its end has arrived
+				failKnown("frame-longer-than-maxlate-never-emitted",
+					fmt.Sprintf("loss-free stream: frame %v of %d packets (displacement up to %d) does not fit maxLate %d and is never emitted", fr, len(fr), maxDisp, in.MaxLate))
 			case hasBelow(fr):
 				failKnown("packet-below-first-pushed-seq-never-emitted",
 					fmt.Sprintf("loss-free stream, first pushed packet is stream index %d; frame %v (complete, delivered) never emitted", firstG, fr))
@@ -244,6 +286,37 @@ func c31RunInner(in c31In) (V, Verdict) {
 		verdict.Class = fmt.Sprintf("%s/samples%s", in.Class, c31Bucket(len(emitted)))
 	}
 	return obs, verdict
+}
+
+// c31EmptiedWindowBuild predicts, from the builder's bookkeeping before a Pop, whether
+// buildSample will build over an active window it has just emptied: the window is not
+// empty, its tail lies Inside filled and filled.tail == active.head (so the extension
+// active.tail = filled.tail empties it), slot active.head is occupied, the occupied run
+// from there reaches a partition tail, and the slot after that is occupied (Pop does not
+// build otherwise).  This is what the model flags as fault 3.
+func c31EmptiedWindowBuild(sb *samplebuilder.SampleBuilder, live map[uint16]*rtp.Packet, dep c31Dep) bool {
+	st := sb.VerifState()
+	if st.ActiveHead == st.ActiveTail || st.FilledHead == st.FilledTail {
+		return false
+	}
+	if st.ActiveTail-st.FilledHead >= st.FilledTail-st.FilledHead { // active.tail not Inside filled
+		return false
+	}
+	if st.FilledTail != st.ActiveHead {
+		return false
+	}
+	i := st.ActiveHead
+	for n := 0; n < 65536 && sb.VerifBuffered(i); n++ {
+		p := live[i]
+		if p == nil {
+			return false
+		}
+		if dep.IsPartitionTail(p.Marker, p.Payload) {
+			return sb.VerifBuffered(i + 1)
+		}
+		i++
+	}
+	return false
 }
 
 // c31Hung is set once a case did not finish: the builder is looping (a mutant, or a
@@ -308,7 +381,15 @@ func c31SampleV(in c31In, s *media.Sample, durLim int64) V {
 
 // the property's clauses on one emitted sample, from the generator's ground truth only
 func c31CheckSample(s *media.Sample, k int, pushed map[string]c31Pushed, emitted *[]c31Emitted,
-	seenG map[int]int, failNew, failKnown func(sig, what string)) {
+	seenG map[int]int, failNew, failKnown func(sig, what string), emptiedCause string) {
+	// a sample built over an emptied active window has timestamp 0 and may join timestamps;
+	// when the way the window got emptied is a recorded cause, that cause is reported
+	tsFail := failNew
+	tsSig := func(sig string) string { return sig }
+	if emptiedCause != "" {
+		tsFail = failKnown
+		tsSig = func(string) string { return emptiedCause }
+	}
 	// the bytes must be a concatenation of whole chunks
 	var run []c31Pushed
 	var keys []string
@@ -347,7 +428,7 @@ func c31CheckSample(s *media.Sample, k int, pushed map[string]c31Pushed, emitted
 		failNew("sample-does-not-start-at-partition-head", fmt.Sprintf("op %d: first packet seq %d is not a partition head", k, run[0].seq))
 	}
 	if s.PacketTimestamp != run[0].ts {
-		failNew("sample-timestamp-not-its-head-packets", fmt.Sprintf("op %d: PacketTimestamp %d, head packet has %d", k, s.PacketTimestamp, run[0].ts))
+		tsFail(tsSig("sample-timestamp-not-its-head-packets"), fmt.Sprintf("op %d: PacketTimestamp %d, head packet has %d", k, s.PacketTimestamp, run[0].ts))
 	}
 	mixed, mixedBeforeLast := false, false
 	for i, p := range run {
@@ -364,7 +445,7 @@ func c31CheckSample(s *media.Sample, k int, pushed map[string]c31Pushed, emitted
 			failKnown("tail-flag-tested-before-timestamp-change",
 				fmt.Sprintf("op %d: sample of seq %d..%d has timestamp %d but its last packet (a partition tail) has %d", k, e.first, e.last, run[0].ts, lastp.ts))
 		} else {
-			failNew("sample-mixes-timestamps", fmt.Sprintf("op %d: sample of seq %d..%d mixes timestamps", k, e.first, e.last))
+			tsFail(tsSig("sample-mixes-timestamps"), fmt.Sprintf("op %d: sample of seq %d..%d mixes timestamps", k, e.first, e.last))
 		}
 	}
 	// once + order, against every earlier sample
@@ -856,7 +937,51 @@ func c31Corpus() []c31In {
 		w9.Ops = append(w9.Ops, c31Push(g, uint16(35420+g), 2068359564, fl6(g)))
 	}
 	w9.Ops = append(w9.Ops, c31Push(6, 35426, 2068359807, 3), fl, pop, pop, pop)
-	return []c31In{w1, w2, w3, w4, w5, w6, w7, w8, w9}
+	// 10. WithMaxTimeDelay, maxLate 50: Flush drops the headless run [10 11] and leaves active = [13, 12);
+	//     the headless run [13 14] (timestamps further apart than the delay) is force-built: buildSample
+	//     releases both, purgeBuffers increments filled.head once more: filled = [16, 15).  Seq 15 then wraps
+	//     filled to empty; 16 and 17 stay buffered outside it; the last Pop builds [16] over an emptied
+	//     window: PacketTimestamp 0 instead of 5000
+	dupOf := func(g int, seq uint16, ts uint32, flags byte) c31Op {
+		d := c31Push(g, seq, ts, flags)
+		d.Copy = 1
+		d.Payload = c31Payload(c31SP{seq: seq, ts: ts, flags: flags}, g, 1)
+		return d
+	}
+	w10 := base("witness-filled-head-past-tail-delay", 50)
+	w10.DelayMs = 10000
+	w10.Rate = 1024
+	w10.Frames = [][]int{{0, 1}, {2, 3}, {6}, {4}, {5}}
+	w10.Ops = []c31Op{c31Push(0, 10, 1, 0), c31Push(1, 11, 1, 2), fl,
+		c31Push(2, 13, 1000, 0), c31Push(3, 14, 900000, 2), pop,
+		c31Push(4, 16, 5000, 3), c31Push(5, 17, 6000, 3), c31Push(6, 15, 7000, 3), dupOf(6, 15, 7000, 3), pop, pop}
+	// 11. the same with maxLate 1 and no max-time-delay
+	w11 := base("witness-filled-head-past-tail-maxlate1", 1)
+	w11.Frames = w10.Frames
+	w11.Ops = []c31Op{c31Push(0, 10, 1, 0), c31Push(1, 11, 1, 2),
+		c31Push(2, 13, 1000, 0), c31Push(3, 14, 1000, 2), pop,
+		c31Push(4, 16, 5000, 3), c31Push(5, 17, 6000, 3), c31Push(6, 15, 7000, 3), dupOf(6, 15, 7000, 3), pop, pop}
+	// 12. maxLate 21845: filled.count() is the shorter arc, so the window is never purged once it is longer
+	//     than 65536 - maxLate; it grows to 65535 slots, seq 65535 wraps it to empty with 20 packets buffered;
+	//     the last Pop builds [0 1] (timestamp 5000) over an emptied window: PacketTimestamp 0
+	w12 := base("witness-filled-wraps-ring-large-maxlate", 21845)
+	w12.Ops = []c31Op{c31Push(0, 0, 5000, 1), c31Push(1, 1, 5000, 2)}
+	w12.Frames = [][]int{{0, 1}}
+	for i, q := range []uint16{21844, 43690, 54613, 60074, 62805, 64170, 64853, 65194, 65365, 65450, 65493, 65514, 65525, 65530, 65533, 65534} {
+		w12.Ops = append(w12.Ops, c31Push(2+i, q, uint32(6000+i), 3))
+		w12.Frames = append(w12.Frames, []int{2 + i})
+	}
+	w12.Ops = append(w12.Ops, pop, c31Push(18, 2, 7000, 3), c31Push(19, 65535, 8000, 3), dupOf(19, 65535, 8000, 3), pop, pop)
+	w12.Frames = append(w12.Frames, []int{18}, []int{19})
+	// 13. a frame longer than maxLate: six packets in order, maxLate 4, Pop after every Push
+	w13 := base("witness-frame-longer-than-maxlate", 4)
+	w13.Complete = true
+	w13.Frames = [][]int{{0, 1, 2, 3, 4, 5}, {6}}
+	for g := 0; g < 6; g++ {
+		w13.Ops = append(w13.Ops, c31Push(g, uint16(10+g), 1000, fl6(g)), pop)
+	}
+	w13.Ops = append(w13.Ops, c31Push(6, 16, 2000, 3), pop, fl, pop, pop)
+	return []c31In{w1, w2, w3, w4, w5, w6, w7, w8, w9, w10, w11, w12, w13}
 }
 
 func c31Shrink(in c31In) []c31In {
